@@ -7,6 +7,7 @@ import PhotVerif.Driver.Deblend
 import PhotVerif.Driver.Lazy
 import PhotVerif.Driver.Catalog
 import PhotVerif.Driver.Peaks
+import PhotVerif.Driver.Render
 namespace PhotVerif.Driver
 
 /-- driver state: the objects that live across lines (state-machine models) -/
@@ -14,7 +15,7 @@ structure DState where
   segm : Option PhotVerif.Model.Segm.State := none
 
 def handlers : List (String → List String → Option String) :=
-  [handleGeom, handleMask, handleApSum, handleDetect, handleDeblend, handleLazy, handleCatalog, handlePeaks]
+  [handleGeom, handleMask, handleApSum, handleDetect, handleDeblend, handleLazy, handleCatalog, handlePeaks, handleRender]
 
 def dispatch (st : DState) (line : String) : DState × String :=
   match tokens line with
